@@ -750,3 +750,18 @@ def unsafe_raw_prefix_of_other_names(module: Node, listed: list[Node]) -> list[s
         if module != candidate and module.startswith(candidate):
             found.append(candidate)
     return found
+
+
+def unsafe_raw_flag_escapes(module: Node, other: Node, log: list[str]) -> bool:
+    is_prefix = module.startswith(other)
+    if is_prefix and module[len(other):][:1] in ("", "."):
+        log.append(other)
+    return is_prefix
+
+
+def safe_raw_flag_used_for_branching(module: Node, other: Node, log: list[str]) -> bool:
+    is_prefix = module.startswith(other)
+    if is_prefix and module[len(other):][:1] in ("", "."):
+        log.append(other)
+        return True
+    return False
